@@ -981,7 +981,10 @@ SDom ==     \* visit_Domain / visit_TxContext / visit_Target
   /\ Running /\ F.st = "dom"
   /\ mx' = [mx EXCEPT !.i18n = [d |-> IF It.i18n.d # "" THEN It.i18n.d ELSE mx.i18n.d,
                                  c |-> IF It.i18n.c # "" THEN It.i18n.c ELSE mx.i18n.c,
-                                 t |-> IF It.i18n.t # "" THEN It.i18n.t ELSE mx.i18n.t]]
+                                 \* the target language is an expression: a constant, or (tv) a variable that
+                                 \* is read here -- inside the element's own tal:define / tal:repeat
+                                 t |-> IF It.i18n.t # "" THEN It.i18n.t
+                                       ELSE IF It.i18n.tv # "" THEN Lookup(It.i18n.tv).s ELSE mx.i18n.t]]
   /\ ctl' = SetF([F EXCEPT !.st = NextStage(It, "dom"), !.j = 1, !.ib = mx.i18n])
   /\ UNCHANGED <<pid, envs, glob, rep, cells, out, log, tok, exc, res>>
 
